@@ -98,18 +98,21 @@ class Path:
         r = self._check(zbool(cond), FEAS_TIMEOUT_MS)
         return r != z3.unsat
 
-    def provable(self, cond):
+    def provable(self, cond, timeout_ms=FEAS_TIMEOUT_MS):
         cond = simplify_scalar(cond) if not isinstance(cond, bool) else cond
         if isinstance(cond, bool):
             return cond
         key = cond.get_id()
         hit = self._prov_cache.get(key)
         if hit is not None and hit[0].eq(cond):
-            return True
-        r = self._check(z3.Not(cond), FEAS_TIMEOUT_MS)
+            if hit[1] or hit[2] >= timeout_ms:
+                return hit[1]
+        r = self._check(z3.Not(cond), timeout_ms)
         res = r == z3.unsat
-        if res:
-            self._prov_cache[key] = (cond, True)  # owns the key (AST ids are reused after GC)
+        # owns the key (AST ids are reused after GC); negative answers are only valid for the
+        # facts known so far, but facts only grow, so a cached "not provable" can at worst
+        # keep a term in its general (sound) form
+        self._prov_cache[key] = (cond, res, timeout_ms)
         return res
 
     # ------------------------------------------------------------------ decisions
@@ -215,7 +218,7 @@ class Path:
 
         t1 = time.time()
         try:
-            r0 = check_abstracted(list(self.solver.assertions()) + [neg], timeout_ms=4000)
+            r0 = check_abstracted(list(self.solver.assertions()) + [neg], timeout_ms=max(4000, self.prove_timeout_ms))
             if r0 != z3.unsat and aux:
                 r0 = check_abstracted(list(self.solver.assertions()) + list(aux) + [neg], timeout_ms=4000)
                 self.n_queries += 1
